@@ -54,7 +54,7 @@ def switchOfFeedback : Feedback → Switch
 def showNs : Ns → String | .html => "html" | .svg => "svg" | .mathml => "mathml"
 
 /-- one comparison run -/
-def compare (c : Cfg) (strict : Bool) (ts : List Token) : String :=
+def compare (c : Cfg) (strict : Bool) (ts : List Token) (checkCdata : Bool := true) : String :=
   let cfg := Gen.Tags.cfg
   let rec go (fuel : Nat) (k : Nat) (tags : Nat) (sim : Sim) (simCdata : Bool) (s : State) (tk : TkState) : List Token → String
     | [] => s!"ok n={tags}"
@@ -78,7 +78,7 @@ def compare (c : Cfg) (strict : Bool) (ts : List Token) : String :=
             if o.impossible || o.outOfFuel then s!"spec-stuck@{k}"
             else if simSw != o.sw then
               s!"div@{k} switch sim={showSwitch simSw} spec={showSwitch o.sw} mode={showMode s.mode} stack={showStack s}"
-            else if simCdata' != o.st.cdataAllowed then
+            else if checkCdata && simCdata' != o.st.cdataAllowed then
               s!"div@{k} cdata sim={simCdata'} spec={o.st.cdataAllowed} stack={showStack o.st}"
             else if sim'.currentNs != o.st.startTagNs then
               s!"div@{k} ns sim={showNs sim'.currentNs} spec={showNs o.st.startTagNs} stack={showStack o.st}"
@@ -92,6 +92,16 @@ def run (line : String) : String :=
     | some (sc, ts) =>
       let strict := mode == "strict"
       s!"{compare { scripting := sc } strict ts} | {compare { scripting := sc, legacySelect := true } strict ts}"
+    | none => "bad-case"
+  | _ => "bad-case"
+
+/-- lane `tbn` (Lean only): as `tbs` for the current `select` parsing, without the CDATA comparison (F28 shows in
+every integration point): tokenizer switch and start-tag namespace only -/
+def runN (line : String) : String :=
+  match (line.splitOn " ").filter (· ≠ "") with
+  | cfg :: mode :: toks =>
+    match parseCase (" ".intercalate (cfg :: toks)) with
+    | some (sc, ts) => compare { scripting := sc } (mode == "strict") ts false
     | none => "bad-case"
   | _ => "bad-case"
 
